@@ -1,6 +1,7 @@
 package regex
 
 import (
+	"fmt"
 	"regexp"
 
 	schema "github.com/jsightapi/jsight-schema-core"
@@ -75,7 +76,15 @@ func (s *RSchema) Example() ([]byte, error) {
 	return s.generateExample()
 }
 
-func (s *RSchema) generateExample() ([]byte, error) {
+func (s *RSchema) generateExample() (b []byte, err error) {
+	defer func() {
+		// The generator panics on expressions it cannot serve (for instance a
+		// character class without a single ASCII character).
+		if r := recover(); r != nil {
+			b, err = nil, errs.ErrRegexExample.F(fmt.Sprint(r))
+		}
+	}()
+
 	// The generator keeps the state of its random source between calls, so
 	// a fresh one is used every time: the same schema always gives the same
 	// example, and concurrent calls do not share anything.
